@@ -344,6 +344,20 @@ func simParseID(value []byte) int {
 	return n
 }
 
+// identity of a record: "v<id>|..." in the value, or "k<id>" in the key for tombstones
+func simRecID(key, value []byte) int {
+	if id := simParseID(value); id != 0 || value != nil {
+		return id
+	}
+	ks := string(key)
+	if strings.HasPrefix(ks, "k") {
+		if n, err := strconv.Atoi(ks[1:]); err == nil {
+			return n
+		}
+	}
+	return 0
+}
+
 func simFlatten(ms *MessageSet, out *[]simRecord) {
 	for _, mb := range ms.Messages {
 		if mb.Msg == nil {
@@ -357,7 +371,7 @@ func simFlatten(ms *MessageSet, out *[]simRecord) {
 		if !mb.Msg.Timestamp.IsZero() && mb.Msg.Version >= 1 {
 			ts = mb.Msg.Timestamp.UnixNano() / int64(time.Millisecond)
 		}
-		*out = append(*out, simRecord{id: simParseID(mb.Msg.Value), key: mb.Msg.Key, value: mb.Msg.Value, tsMs: ts, pid: -1})
+		*out = append(*out, simRecord{id: simRecID(mb.Msg.Key, mb.Msg.Value), key: mb.Msg.Key, value: mb.Msg.Value, tsMs: ts, pid: -1})
 	}
 }
 
@@ -407,7 +421,7 @@ func (c *simCluster) decodeBatches(r *ProduceRequest) []simBatchIn {
 						}
 					}
 					ts := rb.FirstTimestamp.Add(rc.TimestampDelta).UnixNano() / int64(time.Millisecond)
-					bi.recs = append(bi.recs, simRecord{id: simParseID(rc.Value), key: rc.Key, value: rc.Value, hdrs: hs,
+					bi.recs = append(bi.recs, simRecord{id: simRecID(rc.Key, rc.Value), key: rc.Key, value: rc.Value, hdrs: hs,
 						tsMs: ts, pid: rb.ProducerID, epoch: rb.ProducerEpoch, seq: rb.FirstSequence + int32(i),
 						isCtl: rb.Control, txn: rb.IsTransactional})
 				}
